@@ -340,6 +340,12 @@ lg_max_map_size : lg_max , cur_map_cap , offset : 0 , stream_weight : 0 , sample
 }
 
 
+    fn is_empty ( & self ) -> ( r : bool ) ensures r == ( self . hash_map . num_active == 0 ) , {
+self . hash_map . num_active ( ) == 0 }
+
+    fn num_active_items ( & self ) -> ( r : usize ) ensures r == self . hash_map . num_active , {
+self . hash_map . num_active ( ) }
+
     fn total_weight ( & self ) -> ( r : u64 ) ensures
 /*@C07.total_weight*/ forall | h : Seq < ( T , u64 ) > | # [ trigger ] self . models ( h ) ==> r == total ( h ) , {
 self . stream_weight }
